@@ -44,7 +44,7 @@ def obligations(tier):
                       {"VF_KIND": kind}, funcs=(SY + "TimeSignatureEvent.from_parsed_data", IN + "SpecialEvent.from_parsed_data",
                                                 IN + "TrackEvent.from_parsed_data", GL + "GlobalEvent.from_parsed_data")))
     obs += _ned("C01.note_event_dataflow", tier, (IN + "NoteEvent.from_parsed_data",))
-    obs += _sync_section("C01", ["0,1,3", "0,2,1"]) + [_two_maps("C01")] + _e2e("C01", [0, 3] if tier == "quick" else [0, 1, 3, 7])
+    obs += _sync_section("C01", ["0,1,3", "0,2,1"]) + [_two_maps("C01")] + _e2e("C01", [3] if tier == "quick" else [0, 1, 3, 7], split=(3, 7))
     obs.append(Ob("C01.builder_threading", "CH", "harness.h_events", "builder_threading", 120, funcs=(TR + "build_events_from_data",)))
     idxs = ["0,1", "0,6,1"] if tier == "quick" else ["0,1", "0,6,1", "7,2", "3,3,4", "0,1,5"]
     for ix in idxs:
